@@ -58,6 +58,11 @@ type c14In struct {
 	Op      bool   `json:"op,omitempty"`
 	Def     bool   `json:"def,omitempty"`
 	Preset  Bs     `json:"preset,omitempty"`
+	// apikey: the URL the operation is built on. Base = the Runtime's base path (empty: "/"), Pat = the path pattern (empty: "/things");
+	// either may carry static query parameters, also one with the key's own name. Def (apikey): the writer is the Runtime's
+	// DefaultAuthentication instead of the operation's AuthInfo.
+	Base Bs `json:"base,omitempty"`
+	Pat  Bs `json:"pat,omitempty"`
 	// kind "defaultx": the default credential crossed with every kind of writer
 	OpW  *c14W   `json:"opw,omitempty"`  // the operation's own writer (nil: none)
 	DefW *c14W   `json:"defw,omitempty"` // Runtime.DefaultAuthentication (nil: not configured)
@@ -147,7 +152,7 @@ func (c14) ID() string        { return "C14" }
 func (c14) CoqModule() string { return "Check_C14" }
 func (c14) Rule() string {
 	return "basic: users without and (a share) with a colon, passwords of arbitrary bytes incl. colon/non-ASCII/empty, realms incl. empty, failing callback, plain and Ctx variants; " +
-		"basicraw: foreign schemes, case variants of the prefix, damaged base64, missing colon; apikey: header and query, names in several cases, values header-safe / arbitrary (query) / empty; " +
+		"basicraw: foreign schemes, case variants of the prefix, damaged base64, missing colon; apikey: header and query, names in several cases, values header-safe / arbitrary (query) / empty, a third on a base path / pattern with static query parameters (half of them with the key's own name), a third written by the Runtime's default writer; " +
 		"bearer: every subset of {Authorization header, query, urlencoded form, multipart form, form under a JSON content type} with foreign schemes and lower-case prefix in the header, scopes lists; " +
 		"default: all 8 combinations of operation writer / default writer / pre-set header; defaultx: the default credential crossed with every kind of operation writer " +
 		"(none, nil from an unsupported key location, basic, bearer, key in header, key named Authorization, key in query, pass-through, compositions with and without an Authorization writer, nested, empty, with nil entries) " +
@@ -279,12 +284,71 @@ func (c14) Enumerate(tier string) []any {
 		}
 	}
 	out = append(out, c14EnumCross()...)
+	// an API key written by the client (operation writer / default writer) on a URL whose base path and/or pattern fixes static
+	// query parameters - one of them with the key's own name: the server must receive the written key
+	for _, loc := range []bool{true, false} {
+		for _, def := range []bool{false, true} {
+			for _, v := range []Bs{"s3cr3t", "", "a b&c"} {
+				for i, bp := range [][2]string{{"/api?api_key=anonymous", ""}, {"/api", "/pets/7?api_key=anonymous"}, {"/api?api_key=base", "/pets/7?api_key=pat&x=1"},
+					{"/api?other=1", "/pets/7?token=static"}, {"/?API_KEY=upper", "/things?api_key="}} {
+					out = append(out, c14In{Kind: "apikey", Name: "api_key", InQuery: loc, V: v, Def: def, Ctx: i%2 == 0, Base: Bs(bp[0]), Pat: Bs(bp[1])})
+				}
+			}
+		}
+	}
 	// every single byte as a password and as a query key value
 	for c := 0; c < 256; c++ {
 		out = append(out, c14In{Kind: "basic", U: "u", P: Bs([]byte{byte(c)}), Ctx: c%2 == 0})
 		out = append(out, c14In{Kind: "apikey", Name: "k", InQuery: true, V: Bs([]byte{'a', byte(c), 'b'})})
 	}
 	return out
+}
+
+// c14StaticQ: a static query string for a base path or a pattern; half of them fix a parameter with the key's own name
+func c14StaticQ(r *rand.Rand, name string) string {
+	vals := []string{"anonymous", "", "public", "static key", "a&b", "0"}
+	var parts []string
+	if r.Intn(2) == 0 {
+		parts = append(parts, url.QueryEscape(name)+"="+url.QueryEscape(vals[r.Intn(len(vals))]))
+	}
+	if r.Intn(2) == 0 {
+		parts = append(parts, url.QueryEscape(c14QNames[r.Intn(len(c14QNames))])+"="+url.QueryEscape(vals[r.Intn(len(vals))]))
+	}
+	if r.Intn(3) == 0 {
+		parts = append(parts, "v=2")
+	}
+	if r.Intn(2) == 0 {
+		for a, b := 0, len(parts)-1; a < b; a, b = a+1, b-1 {
+			parts[a], parts[b] = parts[b], parts[a]
+		}
+	}
+	return strings.Join(parts, "&")
+}
+
+// c14GenKeyURL: a third of the api-key cases are built on a Runtime / operation whose base path or pattern has static query
+// parameters; a third of the cases hand the writer over as the Runtime's default credential
+func c14GenKeyURL(r *rand.Rand, in *c14In) {
+	if r.Intn(3) == 0 {
+		in.Def = true
+	}
+	if r.Intn(3) != 0 {
+		return
+	}
+	bases := []string{"/", "/api", "/api/v1/", "api"}
+	pats := []string{"/things", "/pets/7", "/a/b/"}
+	where := r.Intn(3) // 0 base path, 1 pattern, 2 both
+	b, p := bases[r.Intn(len(bases))], pats[r.Intn(len(pats))]
+	if where != 1 {
+		if q := c14StaticQ(r, string(in.Name)); q != "" {
+			b += "?" + q
+		}
+	}
+	if where != 0 {
+		if q := c14StaticQ(r, string(in.Name)); q != "" {
+			p += "?" + q
+		}
+	}
+	in.Base, in.Pat = Bs(b), Bs(p)
 }
 
 func c14Bytes(r *rand.Rand, n int) string {
@@ -399,6 +463,7 @@ func (c14) Gen(r *rand.Rand, tier string, i int) any {
 		default:
 			in.V = Bs(c14HeaderSafe(r, 1+r.Intn(12)))
 		}
+		c14GenKeyURL(r, &in)
 		return in
 	case k == 9:
 		in := c14In{Kind: "defaultx"}
@@ -481,9 +546,13 @@ var errC14 = errors.New("c14 callback refuses")
 
 // c14Wire builds the request with the real client and reads it back as a server would.
 func c14Wire(in c14In, auth runtime.ClientAuthInfoWriter, def runtime.ClientAuthInfoWriter, params func(runtime.ClientRequest) error, consumes string) (*http.Request, error) {
-	rt := client.New("api.example.com", "/", []string{"http"})
+	base := "/"
+	if in.Base != "" {
+		base = string(in.Base)
+	}
+	rt := client.New("api.example.com", base, []string{"http"})
 	rt.DefaultAuthentication = def
-	_, sreq, err := c14WireOn(rt, auth, params, consumes, false)
+	_, sreq, err := c14WireOnPat(rt, string(in.Pat), auth, params, consumes, false)
 	return sreq, err
 }
 
@@ -505,8 +574,16 @@ func (c *c14Capture) RoundTrip(req *http.Request) (*http.Response, error) {
 // c14WireOn builds one request on the given Runtime (its DefaultAuthentication as it is now) and reads it back as a server
 // would; it also returns the client-side request.
 func c14WireOn(rt *client.Runtime, auth runtime.ClientAuthInfoWriter, params func(runtime.ClientRequest) error, consumes string, submit bool) (*http.Request, *http.Request, error) {
+	return c14WireOnPat(rt, "", auth, params, consumes, submit)
+}
+
+// c14WireOnPat: the same with a path pattern of the caller's choice (empty: /things)
+func c14WireOnPat(rt *client.Runtime, pattern string, auth runtime.ClientAuthInfoWriter, params func(runtime.ClientRequest) error, consumes string, submit bool) (*http.Request, *http.Request, error) {
+	if pattern == "" {
+		pattern = "/things"
+	}
 	op := &runtime.ClientOperation{
-		ID: "op", Method: "POST", PathPattern: "/things",
+		ID: "op", Method: "POST", PathPattern: pattern,
 		ProducesMediaTypes: []string{runtime.JSONMime}, ConsumesMediaTypes: []string{consumes},
 		AuthInfo: auth,
 		Params: runtime.ClientRequestWriterFunc(func(req runtime.ClientRequest, _ strfmt.Registry) error {
@@ -777,7 +854,11 @@ func (c14) Run(inAny any) any {
 			if in.InQuery {
 				loc = "query"
 			}
-			sreq, err := c14Wire(in, client.APIKeyAuth(string(in.Name), loc, string(in.V)), nil, nil, runtime.JSONMime)
+			var opw, defw runtime.ClientAuthInfoWriter = client.APIKeyAuth(string(in.Name), loc, string(in.V)), nil
+			if in.Def {
+				opw, defw = nil, opw
+			}
+			sreq, err := c14Wire(in, opw, defw, nil, runtime.JSONMime)
 			if err != nil {
 				obs.Fail = err.Error()
 				return
@@ -1075,6 +1156,20 @@ func (c14) Category(inAny any, obsAny any) (string, bool) {
 		loc := "header"
 		if in.InQuery {
 			loc = "query"
+		}
+		if in.Def {
+			loc += "/default-writer"
+		}
+		if strings.Contains(string(in.Base), "?") || strings.Contains(string(in.Pat), "?") {
+			loc += "/static-query"
+			for _, u := range []string{string(in.Base), string(in.Pat)} {
+				if _, q, ok := strings.Cut(u, "?"); ok {
+					if vs, err := url.ParseQuery(q); err == nil && vs.Has(string(in.Name)) {
+						loc += "-same-name"
+						break
+					}
+				}
+			}
 		}
 		return fmt.Sprintf("apikey/%s/%s/%s", v, loc, app), in.V != ""
 	case "bearer":
